@@ -41,7 +41,7 @@ struct world
     std::vector<std::optional<dj::track>> th{std::nullopt};
     std::vector<std::string> names;
     sqlite3* conn = nullptr;
-    bool want_raw = false, want_rep = false, auto_reopen = false, want_stmts = false;
+    bool want_raw = false, want_rep = false, auto_reopen = false, want_stmts = false, sweep = false, noobs = false;
     bool dead = false;  // rest of this execution is skipped
     int64_t max_id_seen = 0, max_tid_seen = 0;
     int ntracks_created = 0;
@@ -261,6 +261,8 @@ void start_world(world& w, const json& r)
     w.want_rep = r.value("rep", false);
     w.auto_reopen = r.value("reopen", false);
     w.want_stmts = r.value("stmts", false);
+    w.sweep = r.value("sweep", false);
+    w.noobs = r.value("noobs", false);
     for (auto& n : r.value("names", json::array()))
         w.names.push_back(n.get<std::string>());
     shim::reset_dbs();
@@ -319,6 +321,12 @@ void observation_phase(world& w, json& rec)
         d0 = rr.digest();
         if (w.mode == "disk")
             f0 = file_digest(w);
+    }
+    if (w.noobs)
+    {
+        if (w.want_raw)
+            rec["raw"] = raw_state(w);
+        return;
     }
     int chg0 = sqlite3_total_changes(w.conn);
     shim::begin_call();
@@ -501,6 +509,13 @@ void exec_op(world& w, const json& op)
             int k = ++w.ntracks_created;
             std::string path = op.value("path", "music/t" + std::to_string(k) + ".mp3");
             rec["path"] = path;
+            {
+                auto slash = path.rfind('/');
+                std::string base = slash == std::string::npos ? path : path.substr(slash + 1);
+                auto dot = base.rfind('.');
+                rec["base"] = base;
+                rec["ext"] = dot == std::string::npos ? std::string() : base.substr(dot + 1);
+            }
             f = [&w, path, &newid] {
                 dj::track_snapshot s;
                 s.relative_path = path;
@@ -560,40 +575,68 @@ void exec_op(world& w, const json& op)
         return;
     }
 
+    // C14 sweep: before the call proper, the same call is attempted with its 1st, 2nd, ... statement
+    // failing, until the fault no longer fires (k exceeds the number of statements the call issues);
+    // that last attempt is the ordinary call.  Every faulted attempt gets its own trace record.
     int fault = op.value("fault", 0);
-    shim::begin_call();
-    shim::set_logging(w.want_stmts);
-    shim::set_fault(fault);
-    auto t0 = std::chrono::steady_clock::now();
-    auto oc = vh::guarded(name.c_str(), f);
-    auto t1 = std::chrono::steady_clock::now();
-    shim::set_fault(0);
-    rec["out"] = oc.ok ? "ok" : "throw";
-    if (!oc.ok)
+    int k = w.sweep ? 1 : fault;
+    for (;; ++k)
     {
-        rec["ex"] = oc.ex;
-        rec["std"] = oc.std_exc;
+        json r = rec;
+        size_t nch = w.ch.size(), nth = w.th.size();
+        std::string d0;
+        if (k)
+            d0 = vh::raw_reader{w.conn}.digest();
+        newid = 0;
+        shim::begin_call();
+        shim::set_logging(w.want_stmts);
+        shim::set_fault(k);
+        auto t0 = std::chrono::steady_clock::now();
+        auto oc = vh::guarded(name.c_str(), f);
+        auto t1 = std::chrono::steady_clock::now();
+        bool fired = shim::fault_fired();
+        shim::set_fault(0);
+        r["out"] = oc.ok ? "ok" : "throw";
+        if (!oc.ok)
+        {
+            r["ex"] = oc.ex;
+            r["std"] = oc.std_exc;
+        }
+        r["new"] = newid;
+        r["ns"] = shim::n_prepared();
+        r["nw"] = shim::n_writes();
+        if (k)
+        {
+            r["fault"] = {{"k", k}, {"fired", fired}};
+            if (fired)
+                r["dsame"] = vh::raw_reader{w.conn}.digest() == d0;
+        }
+        if (w.want_stmts)
+        {
+            json st = json::array();
+            for (auto& s : shim::stmts())
+                st.push_back({{"k", s.k}, {"ro", s.readonly}, {"rc", s.rc}, {"f", s.faulted}, {"sql", s.sql.substr(0, 160)}});
+            r["stmts"] = st;
+        }
+        r["us"] = (int64_t)std::chrono::duration_cast<std::chrono::microseconds>(t1 - t0).count();
+        if (fired && oc.ok)
+        {
+            // a call that "succeeded" although one of its statements failed: keep handles it
+            // created out of the table so that script indices stay aligned
+            w.ch.resize(nch);
+            w.th.resize(nth);
+        }
+        observation_phase(w, r);
+        bool last_attempt = !(w.sweep && fired && k < 64);
+        if (last_attempt && op.contains("exp") && op["exp"].get<std::string>() != r["out"].get<std::string>() && !fired)
+        {
+            r["diverged"] = true;
+            w.dead = true;
+        }
+        vh::emit(r);
+        if (last_attempt || w.dead)
+            break;
     }
-    rec["new"] = newid;
-    rec["ns"] = shim::n_prepared();
-    rec["nw"] = shim::n_writes();
-    if (fault)
-        rec["fault"] = {{"k", fault}, {"fired", shim::fault_fired()}};
-    if (w.want_stmts)
-    {
-        json st = json::array();
-        for (auto& s : shim::stmts())
-            st.push_back({{"k", s.k}, {"ro", s.readonly}, {"rc", s.rc}, {"f", s.faulted}, {"sql", s.sql.substr(0, 160)}});
-        rec["stmts"] = st;
-    }
-    rec["us"] = (int64_t)std::chrono::duration_cast<std::chrono::microseconds>(t1 - t0).count();
-    observation_phase(w, rec);
-    if (op.contains("exp") && op["exp"].get<std::string>() != rec["out"].get<std::string>())
-    {
-        rec["diverged"] = true;
-        w.dead = true;
-    }
-    vh::emit(rec);
     if (w.auto_reopen && !w.dead && w.mode == "disk")
     {
         json r2;
